@@ -146,6 +146,18 @@ def more_templates():
     yield 'typed-input', {
         K('A1'): 1, K('B1'): F(('call', 'ISNUMBER', [r('A1')])),
         K('C1'): F(('bin', '+', r('A1'), one))}, [K('A1')], [True, 1]
+    # a formula whose result becomes blank again
+    yield 'blank-result', {
+        K('A1'): 1, K('C1'): 5,
+        K('B1'): F(('call', 'IF', [('bin', '>', r('A1'), ('lit', 0, '0')),
+                                   r('C1'), r('D9')])),
+        K('B2'): F(r('B1'))}, [K('A1')], [0, 1]
+    # a range whose last rows are empty at first
+    yield 'range-trailing-blank', {
+        K('A1'): 1, K('A2'): 2,
+        K('B1'): F(('call', 'SUM', [('rng', None, 1, 1, 1, 4,
+                                     (False,) * 4)])),
+        K('B2'): F(('bin', '+', r('B1'), one))}, [K('A4')], [5, 7]
     yield 'typed-input-zero', {
         K('A1'): 0, K('B1'): F(('call', 'ISNUMBER', [r('A1')])),
         K('C1'): F(('call', 'ISTEXT', [r('A1')]))}, [K('A1')], [False, 0]
